@@ -46,6 +46,10 @@ Init ==
                                              Level(3, a3, b3, "none", "none")>>
 Next == go = FALSE /\ go' = TRUE /\ UNCHANGED chain
 
-DesignOK == go => (ParentUnaffected(chain) /\ OutsideIgnored(chain))
-EmitVec == go => PrintT(ToJson([m |-> "PongoInherit", chain |-> chain, out |-> [k \in 1..Len(chain) |-> Render(chain, k)]]))
+DesignOK == go => (ParentUnaffected(chain) /\ OutsideIgnored(chain) /\ BlocksAgreeWithRender(chain) /\ BlocksInherited(chain))
+Req3 == <<"a", "b", "q">>
+Blk(k) == [i \in 1..3 |-> [n |-> Req3[i], def |-> Defined(chain, k, Req3[i]),
+                            out |-> IF Defined(chain, k, Req3[i]) THEN RenderBlock(chain, k, Req3[i]) ELSE <<>>]]
+EmitVec == go => PrintT(ToJson([m |-> "PongoInherit", chain |-> chain, out |-> [k \in 1..Len(chain) |-> Render(chain, k)],
+                                  blk |-> [k \in 1..Len(chain) |-> Blk(k)]]))
 =============================================================================
